@@ -215,9 +215,10 @@ def execute(plan):
         before = list(plan.get("only_before") or ())
         if plan.get("only") is not None:
             injs = [plan["only"]]
-            if mode == "loader":
-                # the violation was seen on a loader that had already served
-                # these other injected texts
+            if True:
+                # the violation was seen on a schema object (and, in 'loader'
+                # mode, a loader) that had already served these other
+                # injected texts
                 for b in before:
                     res0 = TF.apply(base_res, b)
                     w.begin_op("inject-before")
@@ -260,7 +261,7 @@ def execute(plan):
             for clause, detail in check(inj, o, top, mode):
                 focused = dict(plan)
                 focused["only"] = inj
-                focused["only_before"] = before if mode == "loader" else []
+                focused["only_before"] = before
                 key = {"clause": clause, "kind": inj["kind"],
                        "spelling": inj["spelling"], "cls": o["cls"],
                        "site": o.get("site")}
